@@ -752,10 +752,8 @@ extern "C" int nsim_fibre_has_timer (int tid) { return g.fib[tid].has_deadline |
 extern "C" int nsim_fibre_in_func (int tid, const char *fname) {
 	Fibre *f = &g.fib[tid];
 	for (int i = 0; i < f->fdepth && i < MAXFSTACK; i++) {
-		if (strcmp (rt_symname (f->fstack[i] - 1), fname) == 0) return 1;
+		if (strcmp (rt_symname (f->fself[i]), fname) == 0) return 1;
 	}
-	// the innermost function is not on fstack (only call sites are); compare against last entered function
-	if (f->last_entered && strcmp (rt_symname (f->last_entered), fname) == 0) return 1;
 	return 0;
 }
 
@@ -950,9 +948,9 @@ extern "C" void __tsan_init (void) { }
 extern "C" void __tsan_func_entry (void *pc) {
 	Fibre *f = g.cur;
 	if (!f) return;
-	if (f->fdepth < MAXFSTACK) f->fstack[f->fdepth] = (uintptr_t) pc;
-	f->fdepth++;
 	f->last_entered = (uintptr_t) __builtin_return_address (0);
+	if (f->fdepth < MAXFSTACK) { f->fstack[f->fdepth] = (uintptr_t) pc; f->fself[f->fdepth] = f->last_entered; }
+	f->fdepth++;
 	uintptr_t sp = (uintptr_t) __builtin_frame_address (0);
 	if (sp < f->min_sp) f->min_sp = sp;
 }
@@ -1210,7 +1208,14 @@ extern "C" void nsim_sys_abort (void) {
 	if (!g.in_run || !g.cur) ::abort ();
 	char sbuf[256];
 	describe_stack (g.cur, 0, sbuf, sizeof sbuf);
-	rt_violation (NULL, V_PANIC, g.cur->last_entered ? rt_symname (g.cur->last_entered) : "abort", "abort() called: %s %s", g.panic_msg, sbuf);
+	const char *site = "abort";
+	{
+		Fibre *f = g.cur;
+		int d = f->fdepth < MAXFSTACK ? f->fdepth : MAXFSTACK;
+		if (d >= 1) site = rt_symname (f->fself[d - 1]);
+		if (d >= 2 && strstr (site, "nsync_panic_")) site = rt_symname (f->fself[d - 2]);     // the function that panicked
+	}
+	rt_violation (NULL, V_PANIC, site, "abort() called: %s %s", g.panic_msg, sbuf);
 	end_run (RV_VIOLATION);
 }
 extern "C" ssize_t nsim_sys_write (int fd, const void *buf, size_t n) {
